@@ -105,7 +105,7 @@ def gen_world(seed, tier):
     a["solver_options"].pop("use_also_custom_timeout", None)
     a["solver_options"]["threads"] = rng.choice([1, 2, 3, 4, 8])
     if w["class"] == "MinFlowDecomp":
-        w["knobs"] = {"subgraph_lowerbound_size": rng.choice([2, 3]), "subgraph_lowerbound_shift": rng.choice([1, 2])}
+        w["knobs"] = {"subgraph_lowerbound_size": rng.choice([2, 3, 4, 5]), "subgraph_lowerbound_shift": rng.choice([1, 2])}
     return w
 
 
